@@ -145,49 +145,56 @@ Definition init_meta (len : Z) : meta :=
 (** [cmsg::decode::<T>] debug-asserts that the message carries exactly a [T]: [None] = panic. *)
 Definition expect_size (n : Z) (c : cmsg) : bool := zlen (c_data c) =? n.
 
+Inductive rkind := KTos | KTclass | KPkt4 | KPkt6 | KGro | KTs | KOther.
+
+(** The [(level, type)] dispatch of [ControlMetadata::decode] (Linux cfg). *)
+Definition kind_of (lv ty : Z) : rkind :=
+  if (lv =? UDP_IPPROTO_IP) && ((ty =? UDP_IP_TOS) || (ty =? UDP_IP_RECVTOS)) then KTos
+  else if (lv =? UDP_IPPROTO_IPV6) && (ty =? UDP_IPV6_TCLASS) then KTclass
+  else if (lv =? UDP_IPPROTO_IP) && (ty =? UDP_IP_PKTINFO) then KPkt4
+  else if (lv =? UDP_IPPROTO_IPV6) && (ty =? UDP_IPV6_PKTINFO) then KPkt6
+  else if (lv =? UDP_SOL_UDP) && (ty =? UDP_UDP_GRO) then KGro
+  else if (lv =? UDP_SOL_SOCKET) && (ty =? UDP_SCM_TIMESTAMPNS) then KTs
+  else KOther.
+
+Definition set_ecn (m : meta) (v : Z) : meta :=
+  {| m_ecn_bits := v; m_dst := m_dst m; m_ifx := m_ifx m; m_stride := m_stride m; m_ts := m_ts m |}.
+Definition set_dst (m : meta) (a : ipaddr) (ifx : Z) : meta :=
+  {| m_ecn_bits := m_ecn_bits m; m_dst := Some a; m_ifx := Some ifx; m_stride := m_stride m; m_ts := m_ts m |}.
+Definition set_stride (m : meta) (v : Z) : meta :=
+  {| m_ecn_bits := m_ecn_bits m; m_dst := m_dst m; m_ifx := m_ifx m; m_stride := v; m_ts := m_ts m |}.
+Definition set_ts (m : meta) (s n : Z) : meta :=
+  {| m_ecn_bits := m_ecn_bits m; m_dst := m_dst m; m_ifx := m_ifx m; m_stride := m_stride m; m_ts := Some (s, n) |}.
+
 Definition decode_one (L : layout) (m : meta) (c : cmsg) : option meta :=
-  let lv := c_level c in
-  let ty := c_type c in
   let d := c_data c in
-  if (lv =? UDP_IPPROTO_IP) && ((ty =? UDP_IP_TOS) || (ty =? UDP_IP_RECVTOS)) then
-    if expect_size (l_u8 L) c
-    then Some {| m_ecn_bits := nth 0 d 0; m_dst := m_dst m; m_ifx := m_ifx m;
-                 m_stride := m_stride m; m_ts := m_ts m |}
-    else None
-  else if (lv =? UDP_IPPROTO_IPV6) && (ty =? UDP_IPV6_TCLASS) then
-    if expect_size (l_int L) c
-    then Some {| m_ecn_bits := le_val d mod 256; m_dst := m_dst m; m_ifx := m_ifx m;
-                 m_stride := m_stride m; m_ts := m_ts m |}
-    else None
-  else if (lv =? UDP_IPPROTO_IP) && (ty =? UDP_IP_PKTINFO) then
-    if expect_size (l_pktinfo4 L) c
-    then Some {| m_ecn_bits := m_ecn_bits m; m_dst := Some (IpV4 (firstn 4 (skipn 8 d)));
-                 m_ifx := Some (le_val (firstn 4 d)); m_stride := m_stride m; m_ts := m_ts m |}
-    else None
-  else if (lv =? UDP_IPPROTO_IPV6) && (ty =? UDP_IPV6_PKTINFO) then
-    if expect_size (l_pktinfo6 L) c
-    then Some {| m_ecn_bits := m_ecn_bits m; m_dst := Some (IpV6 (firstn 16 d));
-                 m_ifx := Some (le_val (firstn 4 (skipn 16 d))); m_stride := m_stride m;
-                 m_ts := m_ts m |}
-    else None
-  else if (lv =? UDP_SOL_UDP) && (ty =? UDP_UDP_GRO) then
-    if expect_size (l_int L) c
-    then (* [c_int as usize]: sign extension *)
-         let v := le_signed d in
-         Some {| m_ecn_bits := m_ecn_bits m; m_dst := m_dst m; m_ifx := m_ifx m;
-                 m_stride := (if v <? 0 then v + 2 ^ 64 else v); m_ts := m_ts m |}
-    else None
-  else if (lv =? UDP_SOL_SOCKET) && (ty =? UDP_SCM_TIMESTAMPNS) then
-    if expect_size (l_timespec L) c
-    then let sec := le_signed (firstn 8 d) in
-         let nsec := le_signed (skipn 8 d) in
-         let secs := if sec <? 0 then 0 else sec in                       (* u64::try_from().unwrap_or(0) *)
-         let ns := if (0 <=? nsec) && (nsec <? 2 ^ 32) then nsec else 0 in (* u32::try_from().unwrap_or(0) *)
-         (* Duration::new carries whole seconds out of the nanoseconds *)
-         Some {| m_ecn_bits := m_ecn_bits m; m_dst := m_dst m; m_ifx := m_ifx m;
-                 m_stride := m_stride m; m_ts := Some (secs + ns / 10 ^ 9, ns mod 10 ^ 9) |}
-    else None
-  else Some m.
+  match kind_of (c_level c) (c_type c) with
+  | KTos => if expect_size (l_u8 L) c then Some (set_ecn m (nth 0 d 0)) else None
+  | KTclass => if expect_size (l_int L) c then Some (set_ecn m (le_val d mod 256)) else None   (* [c_int as u8] *)
+  | KPkt4 =>
+      if expect_size (l_pktinfo4 L) c
+      then Some (set_dst m (IpV4 (firstn 4 (skipn 8 d))) (le_val (firstn 4 d)))
+      else None
+  | KPkt6 =>
+      if expect_size (l_pktinfo6 L) c
+      then Some (set_dst m (IpV6 (firstn 16 d)) (le_val (firstn 4 (skipn 16 d))))
+      else None
+  | KGro =>
+      if expect_size (l_int L) c
+      then (* [c_int as usize]: sign extension *)
+           let v := le_signed d in Some (set_stride m (if v <? 0 then v + 2 ^ 64 else v))
+      else None
+  | KTs =>
+      if expect_size (l_timespec L) c
+      then let sec := le_signed (firstn 8 d) in
+           let nsec := le_signed (skipn 8 d) in
+           let secs := if sec <? 0 then 0 else sec in                       (* u64::try_from().unwrap_or(0) *)
+           let ns := if (0 <=? nsec) && (nsec <? 2 ^ 32) then nsec else 0 in (* u32::try_from().unwrap_or(0) *)
+           (* Duration::new carries whole seconds out of the nanoseconds *)
+           Some (set_ts m (secs + ns / 10 ^ 9) (ns mod 10 ^ 9))
+      else None
+  | KOther => Some m
+  end.
 
 Fixpoint decode_all (L : layout) (m : meta) (cs : list cmsg) : option meta :=
   match cs with
